@@ -325,7 +325,7 @@ fn storm(seed: u64, index: u64, rounds: u32) -> StormReport {
             let _ = session.set_overlay(dir.join("root.zy"), text.clone());
             state.insert("root.zy".into(), text.clone());
             history.push((round, "root.zy".into(), Some(text)));
-            if rng.chance(2, 3) {
+            if rng.chance(5, 6) {
                 // the other root switches over as well: both will probe the new names for the first time
                 let text = other_text(epoch, true, (round + 1) % 200);
                 let _ = session.set_overlay(dir.join("other.zy"), text.clone());
@@ -359,9 +359,13 @@ fn storm(seed: u64, index: u64, rounds: u32) -> StormReport {
             // quiescent point: no snapshot is outstanding right after a write
             quiescent_check(&session, &state, round, &mut problems, &history);
         }
-        let k = 1 + rng.below(8);
-        for _ in 0..k {
-            let job = Job { snapshot: session.snapshot(), round, query: *rng.pick(&QUERIES), other_root: rng.chance(2, 5) };
+        // right after new names appeared, all eight analysing threads get work at once, the two roots alternating: both
+        // look the new provider's companion up for the first time, on different threads
+        let new_names = round % 6 == 0;
+        let k = if new_names { 8 } else { 1 + rng.below(8) };
+        for j in 0..k {
+            let other_root = if new_names { j % 2 == 1 } else { rng.chance(2, 5) };
+            let job = Job { snapshot: session.snapshot(), round, query: *rng.pick(&QUERIES), other_root };
             jobs_sent += 1;
             if job_tx.send(job).is_err() {
                 break;
